@@ -408,25 +408,14 @@ theorem bernoulliMoment_eq_finite (p : ℚ) (k : ℕ) : bernoulliMoment p k = fi
   | zero => simp [bernoulliMoment, finiteMoment, bernoulliPV]
   | succ k => simp [bernoulliMoment, finiteMoment, bernoulliPV]
 
-/-
-  Full statement (C08 for Bernoulli), FALSE for the code:
-      theorem bernoulliImpl_eq_spec (p : ℚ) (k : ℕ) : bernoulliImpl p k = bernoulliMoment p k
-  `Bernoulli.get_moment` returns `p` for every k, also for k = 0 where the true moment is 1.
--/
-
-/-- **C08 / Bernoulli.get_moment**, partial: correct for every order `k ≥ 1` -/
-theorem bernoulliImpl_eq_spec_partial (p : ℚ) (k : ℕ) (hk : 1 ≤ k) : bernoulliImpl p k = bernoulliMoment p k := by
+/-- **C08 / Bernoulli.get_moment** (repaired code: `One() if k == 0 else p`): the true moment for every order -/
+theorem bernoulliImpl_eq_spec (p : ℚ) (k : ℕ) : bernoulliImpl p k = bernoulliMoment p k := by
   cases k with
-  | zero => omega
-  | succ k => rfl
+  | zero => rfl
+  | succ k => simp [bernoulliImpl, bernoulliMoment]
 
-example : bernoulliImpl (1/3) 2 = bernoulliMoment (1/3) 2 := bernoulliImpl_eq_spec_partial _ 2 (by norm_num)
-
-/-- counterexample at `k = 0` for every `p ≠ 1` (replayed on the real code: `Bernoulli(["1/2"]).get_moment(0)`) -/
-theorem bernoulliImpl_counterexample (p : ℚ) (hp : p ≠ 1) : bernoulliImpl p 0 ≠ bernoulliMoment p 0 := by
-  simpa [bernoulliImpl, bernoulliMoment] using hp
-
-theorem bernoulliImpl_counterexample_half : bernoulliImpl (1/2) 0 = 1/2 ∧ bernoulliMoment (1/2) 0 = 1 := ⟨rfl, rfl⟩
+example : bernoulliImpl (1/3) 0 = bernoulliMoment (1/3) 0 := bernoulliImpl_eq_spec _ 0
+example : bernoulliImpl (1/3) 2 = bernoulliMoment (1/3) 2 := bernoulliImpl_eq_spec _ 2
 
 /-- Categorical: generalised loop invariant -/
 theorem categoricalImplAux_eq (k : ℕ) (ps : List ℚ) (i : ℕ) (m : ℚ) :
@@ -487,9 +476,8 @@ example : truncNormalRec 1 4 2 (-1) 3 0 0 (1/2) 3 = normalMoment 1 4 3 := truncN
 /-! ### the combined statement -/
 
 /-- **C08, `get_moment` of the formula families**: whenever the code's own formula produces a value, it is
-    the specification moment — for every order `k`, except Bernoulli at `k = 0` (hypothesis `h`, see
-    `bernoulliImpl_counterexample`). -/
-theorem momentImpl_eq_momentSpec_partial (a : Atom) (k : ℕ) (h : a.family ≠ "Bernoulli" ∨ 1 ≤ k)
+    the specification moment — for every family that has a formula and every order `k`. -/
+theorem momentImpl_eq_momentSpec (a : Atom) (k : ℕ)
     (v : ℚ) (hv : momentImpl a k = some v) : momentSpec a k = some v := by
   obtain ⟨fam, ps⟩ := a
   unfold momentImpl at hv
@@ -497,11 +485,10 @@ theorem momentImpl_eq_momentSpec_partial (a : Atom) (k : ℕ) (h : a.family ≠ 
   split at hv
   · -- Bernoulli
     rename_i p hf hp
-    simp only at hf hp h
+    simp only at hf hp
     subst hf; subst hp
-    have hk : 1 ≤ k := by rcases h with h | h; exact absurd rfl h; exact h
     simp only [Option.some.injEq] at hv ⊢
-    rw [← hv, bernoulliImpl_eq_spec_partial p k hk]
+    rw [← hv, bernoulliImpl_eq_spec p k]
   · rename_i lo hi hf hp
     simp only at hf hp
     subst hf; subst hp
@@ -536,10 +523,10 @@ theorem momentImpl_eq_momentSpec_partial (a : Atom) (k : ℕ) (h : a.family ≠ 
   · exact absurd hv (by simp)
 
 example : momentSpec ⟨"Uniform", [1, 3]⟩ 2 = some (uniformImpl 1 3 2) :=
-  momentImpl_eq_momentSpec_partial ⟨"Uniform", [1, 3]⟩ 2 (Or.inl (by decide)) _ (by simp [momentImpl])
+  momentImpl_eq_momentSpec ⟨"Uniform", [1, 3]⟩ 2 _ (by simp [momentImpl])
 
-example : momentSpec ⟨"Bernoulli", [1/3]⟩ 2 = some (bernoulliImpl (1/3) 2) :=
-  momentImpl_eq_momentSpec_partial ⟨"Bernoulli", [1/3]⟩ 2 (Or.inr (by norm_num)) _ (by simp [momentImpl])
+example : momentSpec ⟨"Bernoulli", [1/3]⟩ 0 = some (bernoulliImpl (1/3) 0) :=
+  momentImpl_eq_momentSpec ⟨"Bernoulli", [1/3]⟩ 0 _ (by simp [momentImpl])
 
 /-! ### support of the finite families: every atom of the true law is in the declared support -/
 
